@@ -53,8 +53,8 @@ structure OpenMap (φ : Nat → Nat) (m m' : Mol) : Prop where
       (∃ e ∈ m.bonds, e.touches x = true ∧ e.kind = .double))
   rings : ∀ x, x < m.natoms → ringsThrough m' (φ x) = (ringsThrough m x).map (List.map φ)
 
-/-- `m'` is `m` with every atom `i` renamed `π i`: the atom at `π i` of `m'` is the atom at `i` of `m`, the bonds
-and the rings are the renamed bonds and rings **in the same order**.  `π` is a bijection of the naturals that
+/-- `m'` is `m` with every atom `i` renamed `π i`: the atom at `π i` of `m'` is the atom at `i` of `m`, the bonds are
+the renamed bonds **in any order** (same begin/end atoms), the rings are the renamed rings **in the same order**.  `π` is a bijection of the naturals that
 preserves the index range (any permutation of `0..n-1`, extended by the identity). -/
 structure MolIso (π : Nat → Nat) (m m' : Mol) : Prop where
   inj : Function.Injective π
@@ -62,7 +62,7 @@ structure MolIso (π : Nat → Nat) (m m' : Mol) : Prop where
   range : ∀ i, π i < m.natoms ↔ i < m.natoms
   natoms : m'.natoms = m.natoms
   atoms : ∀ i, m'.atoms[π i]? = m.atoms[i]?
-  bonds : m'.bonds = m.bonds.map (relabelBond π)
+  bonds : m'.bonds.Perm (m.bonds.map (relabelBond π))
   rings : m'.rings = m.rings.map (List.map π)
 
 end PGA.Spec
